@@ -108,23 +108,29 @@ fn show_wire(w: &Wire) -> String {
     format!("w={} recv={} fl={}", ws, hex(&w.recv), w.flushes)
 }
 
-pub struct ServeState { base: PathBuf, counter: usize }
+pub struct ServeState { base: PathBuf, root: Option<PathBuf> }
 
 impl ServeState {
     pub fn new() -> ServeState {
         let base = std::env::temp_dir().join(format!("rwsh-{}", std::process::id()));
         let _ = std::fs::remove_dir_all(&base);
         std::fs::create_dir_all(&base).unwrap();
-        ServeState { base, counter: 0 }
+        ServeState { base, root: None }
     }
 
     fn build_tree(&mut self, f: &[String]) -> String {
-        if f.len() != 2 { return "bad-op".into(); }
-        self.counter += 1;
-        // leave the old tree (cwd may be inside it); remove it after chdir
-        let old = self.base.join(format!("t{}", self.counter - 1));
-        let root = self.base.join(format!("t{}", self.counter));
+        if f.len() != 3 { return "bad-op".into(); }
+        use std::os::unix::ffi::OsStrExt;
+        // the root directory is named by the caller (absolute path): the model sees the same path strings
+        let root_bytes = match unhex(&f[0]) { Some(b) => b, None => return "bad-op".into() };
+        let root = PathBuf::from(std::ffi::OsStr::from_bytes(&root_bytes));
+        if !root.is_absolute() || !root.starts_with(std::env::temp_dir()) { return "tree-error".into(); }
+        let old = self.root.replace(root.clone());
+        let _ = std::env::set_current_dir("/");
+        if let Some(o) = &old { let _ = std::fs::remove_dir_all(o); }
+        let _ = std::fs::remove_dir_all(&root);
         std::fs::create_dir_all(&root).unwrap();
+        let f = &f[1..];
         if f[1] != "-" {
             for e in f[1].split(',') {
                 let p: Vec<&str> = e.split(':').collect();
@@ -143,10 +149,8 @@ impl ServeState {
             }
         }
         let cwd_rel = match unhex(&f[0]) { Some(b) => b, None => return "bad-op".into() };
-        use std::os::unix::ffi::OsStrExt;
         let cwd = root.join(Path::new(std::ffi::OsStr::from_bytes(&cwd_rel)));
         if std::fs::create_dir_all(&cwd).is_err() || std::env::set_current_dir(&cwd).is_err() { return "tree-error".into(); }
-        let _ = std::fs::remove_dir_all(&old);
         "ok".into()
     }
 
@@ -170,7 +174,7 @@ impl ServeState {
     fn manifest(&self) -> String {
         use std::os::unix::ffi::OsStrExt;
         use std::os::unix::fs::MetadataExt;
-        let root = self.base.join(format!("t{}", self.counter));
+        let root = match &self.root { Some(r) => r.clone(), None => return "ok -".into() };
         let mut out: Vec<String> = vec![];
         let mut stack = vec![root.clone()];
         while let Some(d) = stack.pop() {
@@ -206,7 +210,7 @@ impl ServeState {
             "env" => self.set_env(f),
             "manifest" => self.manifest(),
             "proc" => {
-                if f.len() != 5 { return "bad-op".into(); }
+                if f.len() < 5 { return "bad-op".into(); }
                 let kind = if f[0] == "real" { AppKind::Real } else if f[0] == "okempty" { AppKind::OkEmpty }
                     else if let Some(m) = f[0].strip_prefix("err:") { AppKind::Err(String::from_utf8_lossy(&unhex(m).unwrap_or_default()).to_string()) }
                     else { return "bad-op".into() };
@@ -226,7 +230,7 @@ impl ServeState {
                 format!("{} {}", head, show_wire(&w))
             }
             "preq" => {
-                if f.len() != 3 { return "bad-op".into(); }
+                if f.len() < 3 { return "bad-op".into(); }
                 let (read, ws) = match (parse_read(&f[0]), parse_ws(&f[1])) { (Some(r), Some(w)) => (r, w), _ => return "bad-op".into() };
                 let wire = Arc::new(Mutex::new(Wire::default()));
                 let stream = Scripted { read, ws, flush_ok: f[2] == "ok", wire: wire.clone() };
@@ -244,6 +248,7 @@ impl ServeState {
 impl Drop for ServeState {
     fn drop(&mut self) {
         let _ = std::env::set_current_dir("/");
+        if let Some(r) = &self.root { let _ = std::fs::remove_dir_all(r); }
         let _ = std::fs::remove_dir_all(&self.base);
     }
 }
